@@ -39,7 +39,7 @@ type LinearState struct {
 
 	Facts map[string]RawFact
 
-	cachedRules map[string]*Rule
+	cachedRules *ruleCache
 
 	store Storage
 
@@ -85,7 +85,7 @@ func NewLinearState(ctx *Context, name string, store Storage) (*LinearState, err
 	s.Name = name
 	s.store = store
 	s.Facts = make(map[string]RawFact)
-	s.cachedRules = make(map[string]*Rule)
+	s.cachedRules = newRuleCache()
 	return s, nil
 }
 
@@ -153,7 +153,7 @@ func (s *LinearState) Load(ctx *Context) error {
 
 func (s *LinearState) Add(ctx *Context, id string, x Map) (string, error) {
 	Log(DEBUG, ctx, "LinearState.Add", "state", s.Name, "x", x, "id", id)
-	delete(s.cachedRules, id)
+	s.cachedRules.drop(id)
 	timer := NewTimer(ctx, "LinearState.Add")
 	defer timer.Stop()
 
@@ -214,7 +214,7 @@ func (s *LinearState) Rem(ctx *Context, id string) (bool, error) {
 
 func (s *LinearState) rem(ctx *Context, id string, lock bool) (bool, error) {
 	Log(DEBUG, ctx, "LinearState.rem", "id", id)
-	delete(s.cachedRules, id)
+	s.cachedRules.drop(id)
 	_, err := s.store.Remove(ctx, s.Name, []byte(id))
 	// ToDo: Consider what's returned.
 	if err != nil {
@@ -415,15 +415,17 @@ func (s *LinearState) FindCachedRules(ctx *Context, event Map) (map[string]*Rule
 
 	acc := make(map[string]*Rule)
 	for id, r := range rules {
-		if _, isCached := s.cachedRules[id]; isCached {
-			acc[id] = s.cachedRules[id]
+		if rule := s.cachedRules.get(id, r); rule != nil {
+			acc[id] = rule
 		} else {
 			rule, err := RuleFromMap(ctx, r)
 			if err != nil {
 				return nil, err
 			}
+			// The id is set before the rule is shared through the cache.
+			rule.Id = id
 			acc[id] = rule
-			s.cachedRules[id] = rule
+			s.cachedRules.put(id, r, rule)
 		}
 	}
 	return acc, nil
@@ -435,7 +437,7 @@ func (s *LinearState) Clear(ctx *Context) error {
 	// Maybe protect the store (above), too.
 	s.slock(ctx, false)
 	s.Facts = make(map[string]RawFact)
-	s.cachedRules = make(map[string]*Rule)
+	s.cachedRules.clear()
 	s.sunlock(ctx, false)
 	return err
 }
@@ -446,7 +448,7 @@ func (s *LinearState) Delete(ctx *Context) error {
 	// Maybe protect the store (above), too.
 	s.slock(ctx, false)
 	s.Facts = make(map[string]RawFact)
-	s.cachedRules = make(map[string]*Rule)
+	s.cachedRules.clear()
 	s.sunlock(ctx, false)
 	return err
 }
